@@ -7,7 +7,7 @@ export CARGO_NET_OFFLINE=true
 bugfiles=$(grep '^+++ b/' patch.diff | sed 's#^+++ b/##')
 echo "== bug files: $bugfiles"
 echo "== (1) existing suite WITH the change (failures other than the demo's are listed)"
-cargo test --workspace --no-fail-fast --offline --lib --bins --test feox_migrate_cli 2>&1 | grep -E "^test result|^test .*FAILED" | grep -v "$demo" | head -10
+cargo test --workspace --no-fail-fast --offline --lib --bins --test feox_migrate_cli -- --test-threads=6 2>&1 | grep -E "^test result|^test .*FAILED" | grep -v "$demo" | head -10
 echo "== (2) demo WITH the change"
 cargo test --offline "$@" 2>&1 | grep -E "^test result|^test .*FAILED" | head -10
 git apply -R patch.diff
